@@ -26,6 +26,12 @@ WClose(ret, f) ==
     /\ (ret = 1 /\ wok) => (f.valid /\ f.contentEq /\ f.total = wlen /\ f.cutsOk)
     /\ wclosed' = (ret = 1 /\ wok) /\ UNCHANGED <<wlen, wok, runs>>
 
+\* C12: a close on a context that has seen failed calls (and zck_clear_error): if it reports success, the output is a valid
+\* file whose content is the accepted writes - each failed write wholly in or wholly out - never something else
+WCloseX(ret, f) ==
+    /\ ret = 1 => (f.valid /\ f.contentSome)
+    /\ wclosed' = FALSE /\ UNCHANGED <<wlen, wok, runs>>
+
 \* C01: the file then opens, validates and reads back exactly, under any buffer sizes
 WReadBack(openRet, valRet, delivered, eq, closeRet) ==
     /\ wclosed => (openRet = 1 /\ valRet = 1 /\ delivered = wlen /\ eq /\ closeRet = 1)
